@@ -94,3 +94,10 @@ package polynomial
 //@   nopanic[C05]
 //@   requires p != nil
 //@   modifies nothing
+
+// ---- names used by the gate contracts of the protocols (summaries: the functions are deterministic in these values)
+//@ spec fn evalpt(Int, Int) Int
+//@ spec fn polydegree(Int) Int
+//@ pred polydeg(p *Exponent) := ite(p.IsConstant, len(p.coefficients), len(p.coefficients) - 1)
+//@ func (*Exponent).Evaluate
+//@   summary ptval(result) == evalpt(p, scval(x))
